@@ -46,3 +46,9 @@ def match(kf, v, z):
 def _model_flag(v, z, f):
     """the reference model met the structural situation named by the finding while replaying this execution"""
     return any(fl.startswith(f['flag']) for fl in v.get('model_flags', []))
+
+
+@predicate('copy_with_pending_events')
+def _copy_pending(v, z, f):
+    """the copy was taken while queued or deferred events were pending in the source"""
+    return v.get('pending_at_copy', 0) > 0
